@@ -35,9 +35,14 @@ pub fn case_rng(seed: u64, prop: &str, op_ix: usize, index: u64) -> Rng {
 }
 
 pub fn make_case(seed: u64, prop: &str, op: &str, index: u64) -> (CaseSpec, Chooser) {
-    let base = op.strip_suffix("+deep").unwrap_or(op);
-    let deep = op.ends_with("+deep");
-    let op_ix = ALL_OPS.iter().position(|x| *x == base).unwrap_or(0) + if deep { 100 } else { 0 };
+    let (base, off) = if let Some(b) = op.strip_suffix("+deep") {
+        (b, 100)
+    } else if let Some(b) = op.strip_suffix("+wide") {
+        (b, 200)
+    } else {
+        (op, 0)
+    };
+    let op_ix = ALL_OPS.iter().position(|x| *x == base).unwrap_or(0) + off;
     let mut c = Chooser::random(case_rng(seed, prop, op_ix, index));
     let spec = gen_case(&mut c, op, prop);
     (spec, c)
@@ -163,7 +168,9 @@ pub fn run(o: &Opts, rep: &mut Report) {
             let prop = o.prop.clone();
             let seed = o.seed;
             let thorough = o.tier == "thorough";
-            hs.push(s.spawn(move || {
+            // wide configurations nest hundreds of synchronous calls: give the workers a deep stack
+            let builder = std::thread::Builder::new().stack_size(256 << 20);
+            hs.push(builder.spawn_scoped(s, move || {
                 let mut rep = Report::default();
                 for op in ops.iter() {
                     let per_op = budget(op);
@@ -195,9 +202,26 @@ pub fn run(o: &Opts, rep: &mut Report) {
                             i += nthreads as u64;
                         }
                     }
+                    if *op != "tree" {
+                        // configurations beyond every small bound (see gen_case_full): a few per
+                        // operator in the quick tier, some hundreds in the thorough tier
+                        let wide_op = format!("{}+wide", op);
+                        let n_wide = (per_op / if thorough { 64 } else { 256 }).max(nthreads as u64);
+                        let mut i = t as u64;
+                        while i < n_wide {
+                            let (spec, mut c) = make_case(seed, &prop, &wide_op, i);
+                            let r = run_case(&spec, &mut c, &which);
+                            let id = format!("E1:{}:{}:{}:{}", prop, seed, wide_op, i);
+                            for (k, v) in r.exercised.iter() {
+                                *rep.exercised.entry(k.to_string()).or_insert(0) += *v;
+                            }
+                            digest(&mut rep, &prop, &wide_op, &id, &spec, &r, &known, false);
+                            i += nthreads as u64;
+                        }
+                    }
                 }
                 rep
-            }));
+            }).expect("spawn worker"));
         }
         for h in hs {
             match h.join() {
